@@ -5,8 +5,8 @@ import RTV.Model.UnitExtract
 `:`-separated sub-fields, `_` = empty list; strings are code points.
   ux.extract <stage pre|full> <src> <connector> <maxPrefixLen> <isCurrency> <isDimension>
              <pm start:len:text;..> <sm ..> <nums1 start:len:text;..> <nums2 ..> <cuts n|k,..> <nonUnit start:len;..>
-             <hasSeparate> <sep start:text;..> <ambTerm> <mask1 0101..> <mask2> <half>
-        -> `<results start:len:rel|n:text;..>#<unit_is_prefix flags>#<source after the comma rewrite>`  or err:IndexError
+             <hasSeparate> <sep start:text;..> <ambTerm> <mask1 0101..> <mask2> <half> <lockstep 0|1>
+        -> `<results start:len:rel|n:text;..>#<unit_is_prefix flags as passed to _select_candidates>#<source after the comma rewrite>`  or err:IndexError
   ux.select <srcLen> <ers start:len:rel|n:text;..> <flags>      -> results or err:IndexError
   ux.maxsuffix <src> <connector> <firstIndex> <sm>              -> max_len
   ux.bestprefix <src> <start> <pm>                              -> start:len or none
@@ -64,14 +64,15 @@ def parseERs (f : String) : List ER :=
     | _ => none
 
 def hUxExtract : Handler
-  | [stage, src, conn, mpl, isCur, isDim, pm, sm, n1, n2, cuts, nonUnit, hasSep, sep, amb, m1, m2, half] =>
+  | [stage, src, conn, mpl, isCur, isDim, pm, sm, n1, n2, cuts, nonUnit, hasSep, sep, amb, m1, m2, half, lockstep] =>
     let c : Cfg := ⟨pySpace, parseCps conn, parseNat mpl, parseBool isCur, parseBool isDim⟩
     let i : Inputs := ⟨parseCps src, parseMRs pm, parseMRs sm, parseNums n1, parseNums n2, parseCuts cuts,
-      parsePairs nonUnit, parseBool hasSep, parseSeps sep, parseCps amb, parseMask m1, parseMask m2, parseMask half⟩
+      parsePairs nonUnit, parseBool hasSep, parseSeps sep, parseCps amb, parseMask m1, parseMask m2, parseMask half,
+      parseBool lockstep⟩
     let r := if stage == "full" then extract c i else extractPre c i
     match r with
     | none => "err:IndexError"
-    | some rs => showERs rs ++ "#" ++ showMask (loopState c i).flags ++ "#" ++ showCps (fixedSource c i)
+    | some rs => showERs rs ++ "#" ++ showMask (selectFlags c i) ++ "#" ++ showCps (fixedSource c i)
   | _ => "bad-op"
 
 def hUxSelect : Handler
